@@ -32,6 +32,11 @@ CLAIMED = {
          'Arch.Is on all 65x65 ordered pairs of the data-independent domain (all, and abi-os-cpu with each component any or one of three generic names) plus 23 real Debian names; ArchSet.Matches on all lists of length 0..3 over 6 patterns, negated or not, for 5 architectures, built through Parse and as structs; possibility selection on all dependencies of <= 2 relations x <= 3 alternatives over 6 alternative shapes for 3 architectures; SatisfiedBy on 12 operators x 40 versions x (40 versions + 8 unparsable numbers) including V == N. All executed on the real code and compared with reference predicates written from the statement.',
          'Name denotation per dpkg-architecture (cpu = gnu-linux-cpu; os-cpu = gnu-os-cpu unless a part is any); wildcard-vs-wildcard answers only need to be symmetric; reference order from C01.',
          'DESIGN.md §3 C06'),
+ 'C05': ('model_checking',
+         'bounded-exhaustive enumeration of all token sequences (product over a 24-token alphabet) and of grammar-generated fields; fixpoint law as the oracle (no reference parser)',
+         'Every sequence of <= 5 (quick) / 6 (thorough, 2*10^8) tokens over 24 tokens (names, separators, every bracket, operators, a version, substvar braces, architecture names incl. wildcards, newline, a non-ASCII byte) is fed to the real parser; for every accepted one the rendering must be accepted, parse to a structurally identical value and be a fixpoint, also through MarshalControl/UnmarshalControl. The same law is applied to every grammar-generated field of C04 with every single whitespace deviation, and parse-render-parse identity of the (abi, os, cpu) triple is checked for all 584 one- to three-component architecture names over 8 component values plus edge names.',
+         'Strict structural identity (nil and empty slices identified); inputs beyond the token/length bound are not explored.',
+         'DESIGN.md §3 C05'),
 }
 REASON_PENDING = 'check not built yet in this session (planned: see DESIGN.md §3); no claim is made until it exists'
 
